@@ -50,6 +50,12 @@ package state
 //@ pred freshChannel(r *Channel) := r != nil && fresh(r) && (r.Modes == nil || fresh(r.Modes)) && r.Nicks != nil && fresh(r.Nicks)
 //@     && (forall k int :: has(dom(r.Nicks), k) ==> vals(r.Nicks)[k] == nil || fresh(vals(r.Nicks)[k]))
 
+// Nick.Equals is reflect.DeepEqual on two snapshots: trusted to be structural equality.
+//@ func (*Nick).Equals
+//@   attr assumed, pure
+//@   ensures result ==> (nk == nil <==> other == nil) && (nk != nil ==> nk.Nick == other.Nick && nk.Ident == other.Ident && nk.Host == other.Host && nk.Name == other.Name)
+//@ end
+
 // nick.Nick(): a new Nick whose Modes, Channels map and every ChanPrivs in it
 // were allocated by this call; nothing that existed before is written.
 // (The keys of nk.chans / ch.nicks are dereferenced for their names; that they
